@@ -501,8 +501,9 @@ def finish(res, audit, level, rule, assumptions, known, extra_cov=None, thm_note
         cov.update(extra_cov)
     ev = {"property_id": prop, "tier": res.tier, "seed": res.seed, "level": level, "coverage": cov,
           "assumptions": assumptions, "wall_s": round(time.time() - res.t0, 2), "violations": len(seen)}
-    os.makedirs(os.path.join(VERIF, "evidence"), exist_ok=True)
-    json.dump(ev, open(os.path.join(VERIF, "evidence", "%s.json" % prop), "w"), indent=1, default=str)
+    evdir = os.environ.get("VERIF_EVIDENCE_DIR") or os.path.join(VERIF, "evidence")     # seedtest.py redirects: evidence/ only ever holds runs on the unchanged tree
+    os.makedirs(evdir, exist_ok=True)
+    json.dump(ev, open(os.path.join(evdir, "%s.json" % prop), "w"), indent=1, default=str)
     print("%s %s: %d cases (%d distinct non-trivial), %d model traces (%d core-equal, %d gauge drift), "
           "%d/%d obligations, %d violation(s), %.1fs" % (prop, res.tier, res.evaluations, len(res.nontrivial),
           res.model_cases, res.core_equal, res.gauge_drift, audit["discharged"], audit["obligations"], len(seen),
